@@ -3,9 +3,10 @@ import PydlVerif.Model.Scalar
 import PydlVerif.Model.BSpline
 import PydlVerif.Model.BSplineFit
 import PydlVerif.Model.BandChol
+import PydlVerif.Model.BSplineFit2
 open Lean
 namespace PydlVerif.Driver.C09
-open PydlVerif PydlVerif.BSpline PydlVerif.BSplineFit
+open PydlVerif PydlVerif.BSpline PydlVerif.BSplineFit PydlVerif.BSplineFit2
 
 /-! The kernels that the driver runs as the LAPACK parameters of the model are the definitions of
 Model/BandChol.lean - the ones Props/C09.lean proves the factor + solve contract about (`ldlt_factor_spec`,
@@ -57,6 +58,20 @@ def cholResJ : CholRes Float → Json
   | .factor L => Json.mkObj [("status", J.ofInt (-1)), ("L", encM L)]
   | .bad idx sc => Json.mkObj [("idx", J.ofList J.ofNat idx), ("scalar", Json.bool sc)]
 
+/-- the 2-D object of ops `fit2` / `fit2q` -/
+def bs2Of {β : Type} (rd : Json → String → Except String (List β)) (rd1 : Json → String → Except String β)
+    (rows : Json → Except String (List (List β))) (j : Json) : Except String (BS2 β) := do
+  let f ← match Func.ofString (← J.fStr j "func") with
+    | some f => pure f
+    | none => throw "C09 fit2: unknown funcname"
+  pure { base := { nord := ← J.fNat j "nord", breakpoints := (← rd j "bk").toArray,
+                   mask := (← J.list J.bool (← J.fld j "mask")).toArray, coeff := #[] }
+         npoly := ← J.fNat j "npoly"
+         coeff2 := ((← rows (← J.fld j "coeff")).map List.toArray).toArray
+         xmin := ← rd1 j "xmin", xmax := ← rd1 j "xmax", func := f }
+
+def rat1 (j : Json) (k : String) : Except String Rat := do pure (ratOfBits (← J.bits (← J.fld j k)))
+
 def handle (j : Json) : Except String Json := do
   let op ← J.fStr j "op"
   match op with
@@ -90,6 +105,43 @@ def handle (j : Json) : Except String Json := do
       pure (Json.mkObj [("exact", Json.bool true), ("ok", Json.mkObj [
         ("status", J.ofInt o.status), ("yfit", encLQ o.yfit), ("coeff", encLQ o.obj.coeff.toList),
         ("mask", J.ofList Json.bool o.obj.mask.toList), ("alpha", encMQ o.alpha), ("beta", encLQ o.beta.toList)])])
+  | "fit2" =>
+    let b ← bs2Of floats J.fFloat (J.list (J.list J.float)) j
+    let xs ← floats j "x"
+    let x2s ← floats j "x2"
+    let ys ← floats j "y"
+    let ws ← floats j "w"
+    let perm ← J.fNats j "perm"
+    let xe ← floats j "xe"
+    let x2e ← floats j "x2e"
+    let perme ← J.fNats j "perme"
+    if ys.length ≠ xs.length ∨ ws.length ≠ xs.length ∨ x2s.length ≠ xs.length ∨ x2e.length ≠ xe.length then throw "C09 fit2: lengths differ" else
+    let r := fit2 kernelsF b xs x2s ys ws perm
+    pure (resJ (fun (o : FitOut2 Float) =>
+      let val : List (String × Json) :=
+        if o.status == 0 && !xe.isEmpty then
+          match o.obj.value xe x2e perme with
+          | .ok (v, m) => [("val", encL v), ("valmask", J.ofList Json.bool m)]
+          | .error e => [("val_err", Json.str e)]
+        else []
+      Json.mkObj ([
+      ("status", J.ofInt o.status), ("yfit", encL o.yfit), ("coeff", encM o.obj.coeff2),
+      ("mask", J.ofList Json.bool o.obj.base.mask.toList), ("alpha", encM o.alpha), ("beta", encL o.beta.toList)] ++ val)) r)
+  | "fit2q" =>
+    let b ← bs2Of rats rat1 (J.list (J.list (fun v => do pure (ratOfBits (← J.bits v))))) j
+    let xs ← rats j "x"
+    let x2s ← rats j "x2"
+    let ys ← rats j "y"
+    let ws ← rats j "w"
+    let perm ← J.fNats j "perm"
+    if ys.length ≠ xs.length ∨ ws.length ≠ xs.length ∨ x2s.length ≠ xs.length then throw "C09 fit2q: lengths differ" else
+    match fit2 kernelsQ b xs x2s ys ws perm with
+    | .error e => pure (Json.mkObj [("err", Json.str e)])
+    | .ok o =>
+      if o.status != 0 then pure (Json.mkObj [("inexact", Json.str "status"), ("status", J.ofInt o.status)]) else
+      pure (Json.mkObj [("exact", Json.bool true), ("ok", Json.mkObj [
+        ("status", J.ofInt o.status), ("yfit", encLQ o.yfit), ("coeff", encMQ o.obj.coeff2),
+        ("mask", J.ofList Json.bool o.obj.base.mask.toList), ("alpha", encMQ o.alpha), ("beta", encLQ o.beta.toList)])])
   | "chol" =>
     let l ← J.list (J.list J.float) (← J.fld j "l")
     let mininf ← J.fFloat j "mininf"
